@@ -149,7 +149,7 @@ def run(ck):
     rng = ck.rng
     found = [False]
     stats = {"histories": 0, "steps": 0, "nontrivial": 0, "errors": 0, "pops_ok": 0, "pushes": 0, "kinds": {},
-             "alt_policy_tolerated": 0, "maxlen": 0, "maxdepth": 0, "pop_copy_undefined": 0}
+             "alt_policy_tolerated": 0, "maxlen": 0, "maxdepth": 0}
     samples = []
 
     def report(kind, line, m, i):
@@ -195,7 +195,7 @@ def run(ck):
             npop = sum(1 for s in line.split("\t")[1:] if s.split(" ")[1] in ("Q", "Q+"))
             npush = sum(1 for s in line.split("\t")[1:] if s.split(" ")[1] in ("P", "P+"))
             stats["pushes"] += npush
-            stats["pops_ok"] += npop - ne if npop >= ne else 0
+            stats["pops_ok"] += max(0, npop - ne)
             if npush and npop > 0:
                 stats["nontrivial"] += 1
             if "SPECDIFF" in m[k] or "CRASH" in m[k]:
@@ -256,7 +256,6 @@ def run(ck):
             ops, info = rand_history(rng, 60 if rng.random() < 0.4 else 20, 8)
             stats["maxlen"] = max(stats["maxlen"], len(ops))
             stats["maxdepth"] = max(stats["maxdepth"], info["maxdepth"])
-            stats["pop_copy_undefined"] += info["pop_empty"]
             rl.append("\t".join(["H"] + ops))
         compare(rl, "random histories (len<=60, depth<=8)")
         samples.append([show(s) for s in rl[0].split("\t")[1:]][:12])
